@@ -22,6 +22,11 @@ Names imported with `import x from m` are a special case: upstream's own test
 therefore accepts both outcomes of the compiler and asserts what the statement guarantees under either
 reading: the exporter's scalar member, observed as `mx.<name>` after the write, still shows the initializer.
 
+Accepted-program family `shadowed_local` (run-time half of the statement: "for constants of number, boolean or
+string type the value observed is always the initializer"): a closure / method reads an outer const, declares a
+local of the same name, updates the local with `op=` / `?=` / as from-loop counter; the const must still show
+its initializer afterwards and the local the updated value.  Signature C10:shadowed_local:<decl>/<form>/<ctx>:<dev>.
+
 Where a program is (wrongly) accepted the constant is printed after the write (line after `@@VAL@@`),
 so the witness shows whether it changed.  Signature: C10:<decl>/<form>/<ctx>:<deviation>."""
 import json
@@ -53,6 +58,7 @@ KINDS = {
                   frm="from 0.0 to (%s) step 0.5 { }", unpack="[0.5, 1.5]"),
     "str": dict(type="str", init='"hi"', shown="hi", new='"zz"', opt="str?",
                 ops={"add": '"x"', "mul": "2"}, cmp='== "q"', loop=None, frm=None, unpack='["zz", "yy"]'),
+    "class": dict(shown="3", ops={}),
     "bool": dict(type="bool", init="true", shown="true", new="false", opt="bool?", ops={}, cmp=None,
                  loop=None, frm=None, unpack="[false, false]"),
     # growable list: whole-name forms + element forms (element kind int: 5 op 3 always changes)
@@ -126,7 +132,9 @@ _d("imported_var@other_module", "int", "module", "imported", name="ev")
 _d("imported_const_list@other_module", "list", "module", "imported", name="el")
 # (an object imported by name is not usable here: `import eo from mx` then `eo.f` is rejected with "this property
 #  does not exist on `K9`" — a side observation outside C10; object members are covered through `mx.eo.f`)
-_d("imported_class_name@other_module", "class", "module", "imported", name="K9")
+# a class imported by name: HEAD rejects every rebinding of it (unlike VALUE names imported by name, which upstream's
+# test not_import_const_bypass declares to be local copies), so rejection is asserted
+_d("imported_class_name@other_module", "class", "module", "imported_class", name="K9")
 
 MX_SOURCE = "\n".join([
     "export class K9 {", "  f: int", "  constructor(self, f: int) { self.f = f }", "}",
@@ -227,8 +235,14 @@ def write_text(decl, form):
     bare = name.split(".")[-1]
     new = k.get("new") or "6"
     ty = k.get("type") or "int"
-    if kind in ("class", "module"):
-        new, ty = "6", "int"
+    if kind == "module":
+        new, ty = "6", "int"            # no value of a module's type can be written down
+    if kind == "class":
+        # a value the class name COULD hold if it were an ordinary variable: a function of the constructor's type
+        # (with `6` a compiler that lost the const flag would still reject, for a type mismatch)
+        fld = "f" if bare == "K9" else "q"
+        new = "fn(%s: int) -> %s { return real9(%s + 1) }" % (fld, bare, fld)
+        ty = "fn(int) -> %s" % bare
     expr = None
     if bf == "assign":
         st = ["%s = %s" % (name, new)]
@@ -330,20 +344,22 @@ def build(decl, form, ctx, const=True, write=True):
     top = ['print "%s"' % RUN]
     body = []          # lines inside the placement
     show = name + (".f" if kind == "object" else "")
-    if kind in ("class", "module"):
+    if kind == "module":
         show = None
+    if kind == "class":
+        show = "(%s(3)).%s" % (name, "f" if name == "K9" else "q")      # 3 while the name is the real class
     need_k9 = kind == "object" and how in ("const",)
     if how in ("member", "module"):
         files["mx.ms"] = MX_SOURCE
         top.append("import mx")
+    elif how == "imported_class":
+        files["mx.ms"] = MX_SOURCE
+        top.append("import %s from mx" % name)
     elif how == "imported":
         files["mx.ms"] = MX_SOURCE
         top.append("import mx")
-        if kind != "class":
-            show = "mx." + name           # the exporter's member, not the importer's copy
-        if name == "K9":
-            top.append("import K9 from mx")
-        elif kind == "object":
+        show = "mx." + name           # the exporter's member, not the importer's copy
+        if kind == "object":
             top.append("import K9, %s from mx" % name)
         else:
             top.append("import %s from mx" % name)
@@ -367,7 +383,9 @@ def build(decl, form, ctx, const=True, write=True):
         else:
             body.append("%s%s = %s" % (flag, name, k["init"]))
     elif how == "class":
-        body += ["class %s {" % name, "  q: int", "  constructor(self) { self.q = 1 }", "}"]
+        body += ["class %s {" % name, "  q: int", "  constructor(self, q: int) { self.q = q }", "}", "real9 = %s" % name]
+    elif how == "imported_class":
+        body.append("real9 = %s" % name)
     ind = 0 if decl["place"] == "module" else 1
     wline = None
     if write:
@@ -556,9 +574,134 @@ def one_control(item):
     return res
 
 
+# ----------------------------------------------------------------------------- shadowing locals (accepted programs)
+# "For constants of number, boolean or string type the value observed is therefore always the initializer":
+# a closure / method READS an outer const (so it is captured), then declares a LOCAL of the same name (legal
+# shadowing, no write to the const anywhere), then updates that local in place (`op=`, `?=`, from-loop counter).
+# Oracle: the program is accepted; the value read first is the initializer; the local shows the updated value;
+# the const printed afterwards in its own scope still shows the initializer.
+LOCAL = "@@LOCAL@@"
+SEEN = "@@SEEN@@"
+SHADOW_DECLS = ["const_untyped@module", "const_typed@module", "export_const@module", "const_untyped@function",
+                "const_typed@block", "const_float@module", "const_str@module", "const_bool@module",
+                "const_optint@module"]
+SHADOW_CTXS = ["nested_function", "nested_function2", "method"]
+# kind -> (local initial value text, {op: (rhs, expected local shown)}, loop statement or None, expected after loop)
+SHADOW_OPS = {
+    "int": ("6", {"add": ("1", "7"), "sub": ("1", "5"), "mul": ("2", "12"), "div": ("2", "3"), "mod": ("4", "2")},
+            ("0", "from 0 to 3, %s { }", "3")),
+    "float": ("0.5", {"add": ("1.5", "2"), "sub": ("0.25", "0.25"), "mul": ("3.0", "1.5"), "div": ("2.0", "0.25"),
+                      "mod": ("0.375", "0.125")}, ("0.0", "from 0.0 to 2.0 step 0.5, %s { }", "2")),
+    "str": ('"zz"', {"add": ('"x"', "zzx"), "mul": ("2", "zzzz")}, None),
+    "bool": ("false", {}, None),
+    "optint": ("6", {}, None),
+}
+SHADOW_UNWRAP = {"int": ("int?", "7", "7"), "float": ("float?", "1.5", "1.5"), "str": ("str?", '"yy"', "yy"),
+                 "bool": ("bool?", "false", "false"), "optint": ("int?", "7", "7")}
+
+
+def shadow_cases():
+    out = []
+    for did in SHADOW_DECLS:
+        kind = DECL_BY_ID[did]["kind"]
+        forms = ["opassign_" + o for o in SHADOW_OPS[kind][1]] + ["unwrap_assign"]
+        if SHADOW_OPS[kind][2]:
+            forms.append("loop_counter")
+        for form in forms:
+            for ctx in SHADOW_CTXS:
+                if ctx == "method" and DECL_BY_ID[did]["place"] == "block":
+                    continue
+                for read_first in (True, False):
+                    out.append((did, form, ctx, read_first))
+    return out
+
+
+def build_shadow(item):
+    did, form, ctx, read_first = item
+    decl = DECL_BY_ID[did]
+    kind, name = decl["kind"], decl["name"]
+    k = KINDS[kind]
+    bf, op = base_form(form)
+    inner = []
+    if read_first:
+        inner += ["seen9 = %s" % name, 'print "%s"' % SEEN, "print seen9"]
+    if bf == "opassign":
+        rhs, expected = SHADOW_OPS[kind][1][op]
+        inner += ["%s = %s" % (name, SHADOW_OPS[kind][0]), "%s %s %s" % (name, OPSYM[op], rhs)]
+    elif bf == "unwrap_assign":
+        oty, val, expected = SHADOW_UNWRAP[kind]
+        inner += ["%s: %s = nil" % (name, oty), "d9: %s = %s" % (oty, val), "t9 = %s ?= d9" % name]
+    else:
+        init, loop, expected = SHADOW_OPS[kind][2]
+        inner += ["%s = %s" % (name, init), loop % name]
+    inner += ['print "%s"' % LOCAL, "print " + name, "return 0"]
+    if ctx == "nested_function":
+        wl = ["g9 = fn() -> int {"] + ["  " + l for l in inner] + ["}", "g9()"]
+    elif ctx == "nested_function2":
+        wl = ["g9 = fn() -> int {", "  h9 = fn() -> int {"] + ["    " + l for l in inner] + \
+             ["  }", "  h9()", "  return 0", "}", "g9()"]
+    else:
+        wl = ["class M9 {", "  fn go(self) -> int {"] + ["    " + l for l in inner] + \
+             ["  }", "}", "mo9 = M9()", "mo9.go()"]
+    flag = ("export " if decl["export"] else "") + "const "
+    d = "%s%s: %s = %s" % (flag, name, k["type"], k["init"]) if decl["typed"] else "%s%s = %s" % (flag, name, k["init"])
+    body = [d] + wl + ['print "%s"' % VAL, "print " + name]
+    lines = ['print "%s"' % RUN]
+    if decl["place"] == "module":
+        lines += body
+    elif decl["place"] == "function":
+        lines += ["f9 = fn() {"] + ["  " + b for b in body] + ["}", "f9()"]
+    else:
+        lines += ["if true {"] + ["  " + b for b in body] + ["}"]
+    return {"main.ms": "\n".join(lines) + "\n"}, expected
+
+
+def after_marker(ls, marker):
+    if marker in ls:
+        i = ls.index(marker)
+        return ls[i + 1] if i + 1 < len(ls) else None
+    return None
+
+
+def one_shadow(item):
+    did, form, ctx, read_first = item
+    files, expected = build_shadow(item)
+    k = KINDS[DECL_BY_ID[did]["kind"]]
+    r, _, _ = core.run_program(files, cpu=10)
+    res = {"shadow": "%s/%s/%s/%s" % (did, form, ctx, "read_first" if read_first else "no_read"), "runs": 1}
+    if r.cls in ("wall_timeout", "cpu_timeout", "spawn_error"):
+        res["inconclusive"] = "%s: %s" % (res["shadow"], r.cls)
+        return res
+    ls = r.lines()
+    if RUN not in ls:
+        res["inconclusive"] = "shadow case %s rejected by the compiler (legal shadowing expected): %s" % (
+            res["shadow"], r.out[-400:])
+        return res
+    problems = []
+    const_after, local, seen = after_marker(ls, VAL), after_marker(ls, LOCAL), after_marker(ls, SEEN)
+    if r.cls != "ok":
+        problems.append("run_failed")
+    else:
+        if const_after != k["shown"]:
+            problems.append("const_changed")
+        if local != expected:
+            problems.append("local_wrong")
+        if read_first and seen != k["shown"]:
+            problems.append("read_not_initializer")
+    if problems:
+        res["problem"] = "+".join(problems)
+        res["witness"] = {"case": res["shadow"], "files": files, "expected": {"const_after": k["shown"], "local": expected,
+                                                                                "seen_first": k["shown"] if read_first else None},
+                          "observed": {"const_after": const_after, "local": local, "seen_first": seen},
+                          "value_printed_after_write": const_after, "initializer_shown": k["shown"], "run": r.brief()}
+    return res
+
+
 def work(item):
     if item[0] == "case":
         return one_case(item[1])
+    if item[0] == "shadow":
+        return one_shadow(item[1])
     return one_control(item[1])
 
 
@@ -567,7 +710,8 @@ def run(ctx):
     out.level = "fault_enumeration"
     cases, dropped = product()
     controls = sorted({(c[0], c[2]) for c in cases})
-    items = [("case", c) for c in cases] + [("control", c) for c in controls]
+    shadows = shadow_cases()
+    items = [("case", c) for c in cases] + [("control", c) for c in controls] + [("shadow", c) for c in shadows]
     results = core.pmap(work, items, chunksize=8)
     cov = {"cases": len(cases), "controls": len(controls), "dropped_by_applicability_table": len(dropped),
            "rejected_as_required": 0, "rejected_on_write_line": 0, "twins_run": 0, "twins_accepted_and_changed": 0,
@@ -575,6 +719,7 @@ def run(ctx):
            "write_forms": len({c[1] for c in cases}), "write_contexts": len(CTXS)}
     per_form, per_ctx, per_decl = {}, {}, {}
     cells, failing, obs = {}, {}, {}
+    cells_total_shadow = [0]
     for (kind, item), (status, res) in zip(items, results):
         if status != "ok":
             out.inconclusive.append("%s %s: %s" % (kind, item, str(res)[-400:]))
@@ -582,6 +727,26 @@ def run(ctx):
         out.evaluations += res["runs"]
         if "inconclusive" in res:
             out.inconclusive.append(res["inconclusive"])
+            continue
+        if kind == "shadow":
+            cov["shadowing_local_cases"] = cov.get("shadowing_local_cases", 0) + 1
+            out.distinct.add(core.h(["shadow", item]))
+            if "problem" in res:
+                sdid, sform, sctx, _rf = item
+                key = ("shadowed_local:" + sdid, base_form(sform)[0], CTX_CLASS[sctx])
+                fk = (key, res["problem"])
+                if fk not in failing:
+                    failing[fk] = (res["witness"], [])
+                    cells.setdefault(key, [0, 0])
+                failing[fk][1].append("%s -> const %s, local %s" % (res["shadow"], res["witness"]["observed"]["const_after"],
+                                                                    res["witness"]["observed"]["local"]))
+            else:
+                cov["shadowing_local_cases_ok"] = cov.get("shadowing_local_cases_ok", 0) + 1
+                if not any("shadow" in str(x.get("case", "")) for x in out.samples if isinstance(x, dict)) and \
+                        item == ("const_untyped@module", "opassign_add", "nested_function", True):
+                    out.samples.append({"case": "shadowed_local:" + res["shadow"], "files": build_shadow(item)[0],
+                                        "verdict": "accepted; const still the initializer, local updated"})
+            cells_total_shadow[0] += 1
             continue
         if kind == "control":
             if "problem" in res:
@@ -640,10 +805,10 @@ def run(ctx):
     for ((did, fam, cc), problem), (w, variants) in sorted(failing.items()):
         w = dict(w)
         w["failing_variants_of_this_cell"] = variants
-        n_all = cells[(did, fam, cc)][0]
+        n_all = cells[(did, fam, cc)][0] or len(variants)
         out.violations.append(core.Violation(
             "C10:%s/%s/%s:%s" % (did, fam, cc, problem),
-            "write to %s by %s from %s is %s in %d of %d variants (first: value afterwards %s, initializer %s)" % (
+            "%s / %s / %s: %s in %d of %d variants (first: value afterwards %s, initializer %s)" % (
                 did, fam, cc, problem, len(variants), n_all, w["value_printed_after_write"], w["initializer_shown"]), w))
     cov["observations_not_asserted"] = {k2: {"count": len(v), "examples": v[:3]} for k2, v in obs.items()}
     cov["cells(decl,form,ctx)"] = len(cells)
@@ -684,6 +849,13 @@ def replay(path):
     with open(os.path.join(path, "case.json")) as f:
         case = json.load(f)
     w = case["witness"]
+    if case["signature"].startswith("C10:shadowed_local:"):
+        did, form, cx, rf = w["case"].split("/")
+        res = one_shadow((did, form, cx, rf == "read_first"))
+        print("case:", w["case"])
+        print("expected:", w["expected"])
+        print("observed now:", res.get("witness", {}).get("observed", "as expected"), res.get("problem", "agrees"))
+        return 1 if "problem" in res else 0
     files = {}
     root = os.path.join(path, "files")
     for dp, _, fns in os.walk(root):
